@@ -61,7 +61,7 @@ theorem lookupIn_mono {ed ed' : Ed} (hinv : Inv ed) (hm : StoreMono ed.store ed'
             exact ih t' _ (fun x hx hxd => hinv.closed _ _ hcache x hx hxd) hrec
           | none =>
             simp only [hcache] at hres ⊢
-            by_cases hE : e.oid == emptyTreeId
+            by_cases hE : noFind e.oid = true
             · simp only [hE, if_true]; rw [lookupIn_nil, lookupIn_nil]
             · simp only [hE, Bool.false_eq_true, if_false] at hres ⊢
               cases hs : aget e.oid ed.store with
@@ -111,7 +111,7 @@ theorem inv_after_write {ed : Ed} (hinv : Inv ed) {P : Path} {t0 : List Entry}
     | some _ => simp
     | none =>
       simp only [hk] at h
-      by_cases hE : oid == emptyTreeId
+      by_cases hE : noFind oid = true
       · simp [hE]
       · simp only [hE, Bool.false_eq_true, if_false] at h ⊢
         cases hs : aget oid ed.store with
@@ -163,7 +163,7 @@ theorem inv_after_write {ed : Ed} (hinv : Inv ed) {P : Path} {t0 : List Entry}
       cases aget (K ++ [e.name]) trees' with
       | some _ => simp
       | none =>
-        by_cases hE : e.oid == emptyTreeId
+        by_cases hE : noFind e.oid = true
         · simp [hE]
         · simpa [hE] using this
     · by_cases h2 : P <+: K
@@ -351,13 +351,10 @@ theorem child_nonempty {hash : List Entry → Bytes} (hh : HashOk hash)
 
 theorem absStore_cons_dir {S : Assoc Bytes (List Entry)} {t t' : List Entry} {e : Entry} {n : Bytes}
     (hf : findName t n = some e) (hd : e.isTree = true) (hne : e.oid ≠ emptyTreeId)
-    (hc : aget e.oid S = some t') {qs : Path} (hq : qs ≠ []) :
+    (hnn : e.oid ≠ nullId) (hc : aget e.oid S = some t') {qs : Path} (hq : qs ≠ []) :
     absStore S t (n :: qs) = absStore S t' qs := by
   unfold absStore
-  have hE : (e.oid == emptyTreeId) = false := by
-    cases h : e.oid == emptyTreeId with
-    | false => rfl
-    | true => exact absurd (by simpa using h) hne
+  have hE : noFind e.oid = false := noFind_false hne hnn
   have hr : resolve (storeEd S) ([] ++ [n]) e.oid = some t' := by
     rw [resolve_storeEd]; simp [hE, hc]
   rw [lookupIn_cons_dir hf hd hr hq]
@@ -384,7 +381,7 @@ theorem canon_has_leaf {hash : List Entry → Bytes} (hh : HashOk hash)
           have hqne : q' ≠ [] := by
             intro h0; subst h0; simp [absStore, lookupIn] at hq'
           refine ⟨e.name :: q', ?_⟩
-          rw [absStore_cons_dir hfe hd (htok.good e (by simp) hd).1 hs hqne]
+          rw [absStore_cons_dir hfe hd (htok.good e (by simp) hd).1 (hnn e (by simp)) hs hqne]
           exact hq'
       · refine ⟨[e.name], ?_⟩
         have hd' : e.isTree = false := by cases h : e.isTree <;> simp_all
@@ -436,7 +433,7 @@ theorem canon_unique {hash : List Entry → Bytes} (hh : HashOk hash)
                 (child_nonempty hh h2 hok2 he2 hd hs)
               have hqne : q' ≠ [] := by intro h0; subst h0; simp [absStore, lookupIn] at hq'
               have := heq (n :: q')
-              rw [absStore_cons_dir hf2 hd (hok2.good e2 he2 hd).1 hs hqne] at this
+              rw [absStore_cons_dir hf2 hd (hok2.good e2 he2 hd).1 (c2.nonnull e2 he2) hs hqne] at this
               rw [← this] at hq'
               obtain ⟨e1, hfe1, _⟩ := absStore_some_dir hqne hq'
               rw [hf1] at hfe1; cases hfe1
@@ -458,7 +455,7 @@ theorem canon_unique {hash : List Entry → Bytes} (hh : HashOk hash)
             obtain ⟨q', hq'⟩ := canon_has_leaf hh h1 (hch1 e1 he1 hd t1' hs) hne1
             have hqne : q' ≠ [] := by intro h0; subst h0; simp [absStore, lookupIn] at hq'
             have hq2 := heq (n :: q')
-            rw [absStore_cons_dir hf1 hd (hok1.good e1 he1 hd).1 hs hqne] at hq2
+            rw [absStore_cons_dir hf1 hd (hok1.good e1 he1 hd).1 (hnn1 e1 he1) hs hqne] at hq2
             rw [hq2] at hq'
             obtain ⟨e2, hf2, hd2⟩ := absStore_some_dir hqne hq'
             obtain ⟨he2, hn2⟩ := (findName_eq_some_iff hok2.uniq).1 hf2
@@ -472,8 +469,8 @@ theorem canon_unique {hash : List Entry → Bytes} (hh : HashOk hash)
                 | nil => rfl
                 | cons m rest =>
                   have := heq (n :: m :: rest)
-                  rwa [absStore_cons_dir hf1 hd (hok1.good e1 he1 hd).1 hs (by simp),
-                    absStore_cons_dir hf2 hd2 (hok2.good e2 he2 hd2).1 hs2 (by simp)] at this
+                  rwa [absStore_cons_dir hf1 hd (hok1.good e1 he1 hd).1 (hnn1 e1 he1) hs (by simp),
+                    absStore_cons_dir hf2 hd2 (hok2.good e2 he2 hd2).1 (c2.nonnull e2 he2) hs2 (by simp)] at this
               have htt := ih e1 he1 hd t1' hs (c2.child e2 he2 hd2 t2' hs2) hchild
               subst htt
               have ho : e1.oid = e2.oid := (h1 _ _ hs).symm.trans (h2 _ _ hs2)
